@@ -197,7 +197,12 @@ class Repo:
         # `from athlib import X` goes through the package __init__: look for the re-export
         env, _ = self.folded(target)
         if name in env:
-            return env[name]
+            v = env[name]
+            if isinstance(v, foldmod.LazyImport):
+                # re-export: resolve the chain relative to the module that holds it
+                v = self._import(target, v.level, v.module, v.name)
+                env[name] = v
+            return v
         if target.endswith('__init__.py'):
             init = self.module(target)
             for st in init.tree.body:
